@@ -16,7 +16,7 @@ import (
 // goroutines never run on from the same instant without the scheduler between
 // them.
 var allYieldPoints = []string{
-	"router.routed", "service.gate", "service.afterGate", "lb.claim", "lb.claimed",
+	"router.routed", "service.gate", "service.afterGate", "lb.claim", "service.claimed", "lb.claimed",
 	"target.send", "deploy.found", "deploy.healthy", "deploy.beforeUpdate",
 	"deploy.beforeInstall", "router.install", "deploy.beforeDrain", "deploy.beforeDispose", "deploy.done",
 	"drain.marked", "drain.snapshot", "drain.end", "lb.waitDone",
@@ -102,4 +102,13 @@ func alignOp(rng *rand.Rand, o *Op, triggers []string, maxN int) {
 	o.After = triggers[rng.Intn(len(triggers))]
 	o.AfterN = 1 + rng.Intn(maxInt(maxN, 1))
 	o.Delay = 3*time.Second + oddMs(rng.Intn(100), rng.Intn(400))
+}
+
+// request-path yield points at which a request's goroutine can be held.
+var requestHoldPoints = []string{"router.serve", "router.routed", "service.gate", "service.afterGate", "lb.claim", "service.claimed", "lb.claimed", "target.send"}
+
+// holdOp adds a directed stall to a request: it is descheduled at a point of
+// the request path until a step of a command has happened.
+func holdOp(rng *rand.Rand, o *Op, until []string) {
+	o.Hold = &Hold{At: requestHoldPoints[rng.Intn(len(requestHoldPoints))], For: until[rng.Intn(len(until))], N: 1 + rng.Intn(2), Max: time.Duration(500+rng.Intn(2500)) * time.Millisecond}
 }
